@@ -1136,6 +1136,22 @@ func sigmaPlain(v string, n Poly, body Expr) Expr {
 			}
 			return out
 		}
+		if c <= 8192 {
+			// a long concrete range whose terms collapse (periodic elements built from a few symbols): write it out
+			// as long as the running sum stays small
+			out := Expr{}
+			ok := true
+			for i := int64(0); i < c; i++ {
+				out = Add(out, body.SubstIdx(map[string]Poly{v: PInt(i)}))
+				if len(out.terms) > 48 {
+					ok = false
+					break
+				}
+			}
+			if ok {
+				return out
+			}
+		}
 	}
 	out := Expr{}
 	for _, t := range body.terms {
